@@ -21,9 +21,21 @@ build() {
     fi
 }
 
+# Second binary: the same harness against fast_qr compiled WITHOUT --cfg fast_qr_verif (the hooks are gone, and so is
+# anything else in fast_qr that depends on the flag). Every check that does not live on the hooks runs its quick-size
+# pass there first, with the same seed: what a check decides must not depend on the flag its hooks are guarded by.
+build_plain() {
+    if ! RUSTFLAGS="--cfg fqv_plain" cargo build --release --offline -p fqv --target-dir "$VERIF/harness/target-plain" >"$VERIF/harness/build-plain.log" 2>&1; then
+        echo "BUILD-FAILED: the harness or /repo (without --cfg fast_qr_verif, feature image) does not compile; see $VERIF/harness/build-plain.log"
+        grep -E "^error" -A8 "$VERIF/harness/build-plain.log" | head -40
+        exit 2
+    fi
+}
+
 case "${1:-}" in
     setup)
         build
+        build_plain
         "$VERIF/harness/target/release/fqv" selftest full || exit 2
         exit 0
         ;;
@@ -33,13 +45,28 @@ case "${1:-}" in
         ;;
 esac
 
-ID="$1"
+ID="$(echo "$1" | tr a-z A-Z)"
 shift
 build
+case "$ID" in
+    C07|C11|C17) PLAIN=0 ;;   # these observe fast_qr through the guarded hooks only
+    *) PLAIN=1; build_plain ;;
+esac
 if [ "${1:-}" = "--replay" ]; then
+    # a replay file found by the pass without the verification flag is re-executed there
+    if [ $PLAIN -eq 1 ] && grep -q '"plain_build": *true' "$2" 2>/dev/null; then
+        exec "$VERIF/harness/target-plain/release/fqv" "$ID" --replay "$2"
+    fi
     exec "$VERIF/harness/target/release/fqv" "$ID" --replay "$2"
 fi
 TIER="${VERIF_TIER:-${1:-quick}}"
+if [ $PLAIN -eq 1 ]; then
+    VERIF_TIER=quick "$VERIF/harness/target-plain/release/fqv" "$ID" quick
+    rc=$?
+    if [ $rc -ne 0 ]; then
+        exit $rc
+    fi
+fi
 "$VERIF/harness/target/release/fqv" "$ID" "$TIER"
 rc=$?
 if [ $rc -ne 0 ]; then
